@@ -318,6 +318,106 @@ def branches (w : BitVec 32) (addr : Nat) : Option BTR :=
       | _ => none
   else none
 
+/-! ### loads and stores: the other integer forms -/
+
+/-- the instruction body `ldr*/str*/prfm` share once the address expression is known (`semantics.rs` ldr, ldrb, …) -/
+def ldstBody (addr size opc t : Nat) (address : Expr) (wb : List Op) : Option BTR :=
+  let bits := 8 <<< size
+  match A64.decodeSizeOpc size opc with
+  | none => none
+  | some (.prefetch, _, _) => some (straight addr [.nop])
+  | some (.store, _, regsize) =>
+    let v := if size ≥ 2 then rz regsize t else .ext .trun bits (rz 32 t)
+    some (straight addr ([.store address v] ++ wb))
+  | some (.load, signed, regsize) =>
+    let tmp := temp addr bits
+    let v := if signed then Expr.ext .sext regsize (.scalar tmp) else .scalar tmp
+    let width := if signed then regsize else bits
+    some (straight addr ([.load tmp address, setZ width t v] ++ wb))
+
+/-- the offset operand of the register-offset forms: `[Xn|SP, Xm{, lsl #s}]` and `[Xn|SP, Wm|Xm, uxtw|sxtw|sxtx {#s}]` -/
+def regOffset (m option amt : Nat) (s : Bool) : Expr :=
+  if option = 3 ∧ !s then rz 64 m
+  else extended 64 (if option % 4 = 3 then 64 else 32) (rz (if option % 4 = 3 then 64 else 32) m) option amt
+
+/-- register offset: `size 111 0 00 opc 1 Rm option S 10 Rn Rt` -/
+def ldstReg (w : BitVec 32) (addr : Nat) : Option BTR :=
+  let size := fld w 31 30
+  let option := fld w 15 13
+  let s := bit w 12
+  if bit w 26 then none
+  else if option % 4 < 2 then none
+  else
+    let address := Expr.bin .add (.scalar (sc (sName (fld w 9 5)) 64))
+      (regOffset (fld w 20 16) option (if s then size else 0) s)
+    ldstBody addr size (fld w 23 22) (fld w 4 0) address []
+
+/-- the `size 111 V 00/01 …` space: register offset or one of the immediate forms -/
+def ldstSingleM (w : BitVec 32) (addr : Nat) : Option BTR :=
+  if fld w 25 24 = 0 ∧ bit w 21 ∧ fld w 11 10 = 2 then ldstReg w addr else ldstImm w addr
+
+/-- LDR (literal), LDRSW (literal), PRFM (literal): `opc 011 0 00 imm19 Rt` -/
+def ldLiteral (w : BitVec 32) (addr : Nat) : Option BTR :=
+  if bit w 26 then none
+  else
+    let address := k (target addr (fld w 23 5) 19) 64
+    let t := fld w 4 0
+    match fld w 31 30 with
+    | 0 => ldstBody addr 2 1 t address []
+    | 1 => ldstBody addr 3 1 t address []
+    | 2 => ldstBody addr 2 2 t address []
+    | _ => ldstBody addr 3 2 t address []
+
+/-- LDAR/LDLAR/STLR/STLLR and their byte/halfword forms, lifted as plain accesses: `size 001000 1 L 0 Rs o0 Rt2 Rn Rt` -/
+def ldstOrdered (w : BitVec 32) (addr : Nat) : Option BTR :=
+  if !bit w 23 ∨ bit w 21 then none
+  else
+    let address := Expr.bin .add (.scalar (sc (sName (fld w 9 5)) 64)) (k 0 64)
+    ldstBody addr (fld w 31 30) (if bit w 22 then 1 else 0) (fld w 4 0) address []
+
+/-- STLUR/STLURB/STLURH: `size 011001 00 0 imm9 00 Rn Rt` -/
+def stlur (w : BitVec 32) (addr : Nat) : Option BTR :=
+  if fld w 23 22 ≠ 0 ∨ bit w 21 ∨ fld w 11 10 ≠ 0 then none
+  else
+    let address := Expr.bin .add (.scalar (sc (sName (fld w 9 5)) 64)) (k (A64.sext64 (fld w 20 12) 9 0).toNat 64)
+    ldstBody addr (fld w 31 30) 0 (fld w 4 0) address []
+
+/-- LDP/STP/LDPSW/LDNP/STNP (integer): `opc 101 0 mode L imm7 Rt2 Rn Rt` -/
+def ldstPairInt (w : BitVec 32) (addr : Nat) : Option BTR :=
+  let opc := fld w 31 30
+  let mode := fld w 25 23
+  let load := bit w 22
+  let t := fld w 4 0
+  let n := fld w 9 5
+  let t2 := fld w 14 10
+  if bit w 26 then none
+  else if mode > 3 ∨ opc = 3 then none
+  else
+    let signed := opc = 1
+    if signed ∧ (!load ∨ mode = 0) then none
+    else
+      let scale := 2 + opc / 2
+      let bits := 8 <<< scale
+      let off := (A64.sext64 (fld w 21 15) 7 scale).toNat
+      let (address, wb) := memOperand (if mode = 1 then 1 else if mode = 3 then 3 else 4) n off
+      let second := Expr.bin .add address (k (bits / 8) 64)
+      if load then
+        let tmp0 := temp addr bits
+        let tmp1 := temp (addr + 1) bits
+        let width := if signed then 64 else bits
+        let v (tmp : Scalar) : Expr := if signed then Expr.ext .sext 64 (.scalar tmp) else .scalar tmp
+        some (straight addr ([.load tmp0 address, .load tmp1 second, setZ width t (v tmp0), setZ width t2 (v tmp1)] ++ wb))
+      else
+        some (straight addr ([.store address (rz bits t), .store second (rz bits t2)] ++ wb))
+
+/-- the integer load/store space outside `size 111 …`: `op0 = x1x0` -/
+def ldstOther (w : BitVec 32) (addr : Nat) : Option BTR :=
+  if fld w 29 27 = 0b101 then ldstPairInt w addr
+  else if fld w 29 27 = 0b011 ∧ fld w 25 24 = 0 then ldLiteral w addr
+  else if fld w 29 24 = 0b001000 then ldstOrdered w addr
+  else if fld w 29 24 = 0b011001 then stlur w addr
+  else none
+
 /-! ### the mirror -/
 
 def lift (w : BitVec 32) (addr : Nat) : Option BTR :=
@@ -326,9 +426,10 @@ def lift (w : BitVec 32) (addr : Nat) : Option BTR :=
   else if fld w 28 24 = 0b01011 ∧ !bit w 21 then addSubShift w addr
   else if fld w 28 24 = 0b01010 then movReg w addr
   else if fld w 28 23 = 0b100101 then movWide w addr
-  else if fld w 29 27 = 0b111 ∧ !bit w 25 then ldstImm w addr
+  else if fld w 29 27 = 0b111 ∧ !bit w 25 then ldstSingleM w addr
   else if fld w 28 23 = 0b100100 then movBitmask w addr
   else if fld w 28 24 = 0b01011 then addSubExt w addr
+  else if fld w 27 27 = 1 ∧ fld w 25 25 = 0 then ldstOther w addr
   else branches w addr
 
 /-- does the mirror cover this word?  (used by the driver: `none` from `lift` on a covered word means
@@ -337,7 +438,7 @@ def covered (w : BitVec 32) : Bool :=
   w.toNat = 0xd503201f ∨ fld w 28 23 = 0b100010 ∨ fld w 28 24 = 0b01011 ∨ fld w 28 24 = 0b01010 ∨
   fld w 28 23 = 0b100101 ∨
   (fld w 28 23 = 0b100100 ∧ (A64.decodeBitMasks (fld w 22 22) (fld w 15 10) (fld w 21 16) (if bit w 31 then 64 else 32)).isSome) ∨
-  (fld w 29 27 = 0b111 ∧ !bit w 25 ∧ !bit w 26 ∧ (fld w 25 24 = 1 ∨ !bit w 21)) ∨
+  (fld w 27 27 = 1 ∧ fld w 25 25 = 0 ∧ !bit w 26) ∨
   fld w 30 26 = 0b00101 ∨ fld w 31 25 = 0b0101010 ∨ fld w 30 25 = 0b011010 ∨ fld w 30 25 = 0b011011 ∨
   fld w 31 25 = 0b1101011
 
